@@ -2195,7 +2195,11 @@ func forwardedResult(c *ssa.Call, k, depth int) (string, bool) {
 			}
 		}
 	})
-	if n != 1 || !strings.HasPrefix(out, "call:") || strings.Contains(out, "phi(") || strings.Contains(out, "arg#") {
+	if n != 1 || strings.Contains(out, "phi(") || strings.Contains(out, "arg#") {
+		return "", false
+	}
+	// the result of one call, or a field of an object the helper was handed (`return pk.ECDSA, nil`): a type-rooted path
+	if !strings.HasPrefix(out, "call:") && !(strings.HasPrefix(out, "<") && !strings.Contains(out, "call:") && !strings.Contains(out, "new:")) {
 		return "", false
 	}
 	return out, true
